@@ -143,10 +143,6 @@ class Index:
                     prev()
                 return match, skipped
 
-            # matches arrive in descending order: the scan ends below the smallest one
-            stop = compiled_matches[-1]
-            if since:
-                stop += b"\x00" + since
             match, skipped = next_match()
         else:
             match = None
@@ -170,10 +166,11 @@ class Index:
                     ts = key[-37:-33]
                     # print(key, match, ts, since, until)
 
-                    if (
-                        key[:matchlen] != match
-                        or (since and ts < since)
-                        or (until and ts > until)
+                    # only a key of exactly this value (match + 00 + time + 00 + id) is in
+                    # time order; a longer value sharing the prefix says nothing about the rest
+                    if key[:matchlen] != match or (
+                        len(key) == matchlen + 38
+                        and ((since and ts < since) or (until and ts > until))
                     ):
                         match, skipped = next_match()
 
@@ -187,8 +184,6 @@ class Index:
                             continue
                         else:
                             break
-                    elif key < stop:
-                        break
 
                     event_id = key[-32:]
                     if event_id in events:
